@@ -117,6 +117,33 @@ def po_aave(S):
     S.check("counts", b.supplies_count == len(m._supplies) and b.borrows_count == len(m._borrows))
 
 
+@proof("C01", "aave/market-value-after-an-operation-in-the-same-bar==supplies-minus-debts", strength="S",
+       shapes={k: [s for s in v if s["op"] in s["supplies"]][:2] for k, v in AAVE_SHAPES.items()}, contracts=AAVE_CONTRACTS, covers=("accepted",), config={"max_seconds": 600})
+def po_aave_after_operation(S):
+    """'at every bar' includes a bar in which the account was valued, then an operation ran (in after_bar, say), then it is valued again
+    before the next status refresh: the reported value follows the positions as they are now, whatever the market memoised earlier."""
+    from .common import REJECT
+    w = aave_world_of(S)
+    m = w.market
+    m.get_market_balance()                     # an earlier valuation in this bar
+    which = S.int("which_operation", 0, 2)
+    a = S.dec("amount", 0, 10 ** 12, lo_strict=True)
+    try:
+        if which == 0:
+            m.withdraw(w.op, a)
+        elif which == 1:
+            m.supply(w.op, a, m._supplies[w.op].collateral)
+        else:
+            m.change_collateral(w.op, S.bool("flag"))
+    except REJECT:
+        return
+    S.cover("accepted")
+    b = m.get_market_balance()
+    v = total_supply_value(m) - total_debt_value(m)
+    S.check("|net_value-(supplies-debts)|<=1e-4", abs(b.net_value - v) <= Decimal("0.0001"))
+    S.check("counts", b.supplies_count == len(m._supplies) and b.borrows_count == len(m._borrows))
+
+
 # ------------------------------------------------------------------------------------------------ Squeeth (+ the lent LP position)
 @proof("C01", "squeeth/market-value==collateral(incl-lent-LP)-minus-short;LP-counted-exactly-once", strength="S",
        shapes={"quick": [{"vaults": [False]}, {"vaults": [True]}, {"vaults": [False, True]}], "thorough": [{"vaults": [False]}, {"vaults": [True]}, {"vaults": [False, True]}, {"vaults": []}]},
